@@ -37,7 +37,7 @@ class H:
     def istr(self, s):
         return self.p.mk_enum('model::document::DocumentInline', 'Str', s)
     def ispace(self):
-        return self.p.mk_enum('model::document::DocumentInline', 'Space', self.p.mk_struct('model::document::Space'))
+        return self.p.mk_enum('model::document::DocumentInline', 'Space', self.p.mk_struct('model::document::Space', inline_range=self.irange()))
     def ilink(self, url, text, link_type='Regular', title='', rng=None):
         tgt = self.p.mk_struct('model::document::Target', url=url, title=title)
         attr = self.p.mk_struct('model::document::Attributes', identifier='', classes=VecV(), attributes=VecV(), inline_range=self.irange())
